@@ -127,6 +127,48 @@ def strict_api_refusals(run, rng, dist):
                          'TOLERANT', version=v, cls=cls, name=nm, datatype=dt, exc=type(ex).__name__,
                          varies_name_with_complex_datatype=(nm is not None and nm.startswith('VARIES') and dt is not None
                                                             and dt not in lib.get_base_datatypes()))
+        # a child of another validation level or version is refused whatever the attachment path
+        other_v = '2.4' if v != '2.4' else '2.5'
+        for what, mk in (('other-level', lambda cls, nm, **kw: cls(nm, version=v, validation_level=S.TOLERANT, **kw)),
+                         ('other-version', lambda cls, nm, **kw: cls(nm, version=other_v, validation_level=S.STRICT, **kw))):
+            def attach_ctor():
+                seg = Segment('PID', version=v, validation_level=S.STRICT)
+                mk(Field, 'PID_1', parent=seg)
+                return seg
+
+            def attach_parent_attr():
+                seg = Segment('PID', version=v, validation_level=S.STRICT)
+                f = mk(Field, 'PID_1')
+                f.parent = seg
+                return seg
+
+            def attach_replace():
+                seg = Segment('PID', version=v, validation_level=S.STRICT)
+                seg.pid_1 = '1'
+                seg.pid_1 = mk(Field, 'PID_1')
+                return seg
+
+            def attach_index():
+                seg = Segment('PID', version=v, validation_level=S.STRICT)
+                seg.pid_1 = '1'
+                seg.children[0] = mk(Field, 'PID_1')
+                return seg
+            for route, thunk in (('constructor parent=', attach_ctor), ('child.parent =', attach_parent_attr),
+                                 ('assignment over an existing child', attach_replace), ('children[i] =', attach_index)):
+                dist['api_probes'] = dist.get('api_probes', 0) + 1
+                try:
+                    seg = thunk()
+                except (HL7apyException, ValueError):
+                    continue
+                except Exception as ex:  # noqa
+                    run.fail('strict-api-crash', 'a STRICT API call raised a non-library exception', version=v,
+                             segment='PID', field='PID_1', what=route, exc=repr(ex))
+                    continue
+                bad = [c for c in seg.children if c.validation_level != seg.validation_level or c.version != seg.version]
+                if bad:
+                    run.fail('strict-admits-foreign-level-or-version', 'a STRICT element admitted a child of another '
+                             'validation level or HL7 version', version=v, segment='PID', field='PID_1', route=route,
+                             mismatch=what)
         for sname in rng.sample(names, 6):
             rows = lib.SEGMENTS[sname][1]
             row = rng.choice(rows)
@@ -278,9 +320,10 @@ def main(argv=None):
         mnames = [m for m in sorted(lib.MESSAGES) if isinstance(lib.MESSAGES[m], tuple) and len(lib.MESSAGES[m]) == 2
                   and lib.MESSAGES[m][1] and '_' in m and not m.endswith('nn')]
         rng.shuffle(mnames)
-        for m in mnames[:nmsg]:
+        dupes = [m for m in ('ADT_A17', 'ADT_A24', 'ADT_A37') if m in lib.MESSAGES]
+        for m in dupes[:2] + mnames[:nmsg]:
             try:
-                names = c01.instance_names(lib.MESSAGES[m], rng.choice(['req', 'all']))
+                names = c01.instance_names(lib.MESSAGES[m], 'all' if m in dupes else rng.choice(['req', 'all']))
             except Exception:  # noqa
                 continue
             if not names or names[0] != 'MSH' or 'ANYHL7SEGMENT' in names or len(names) > 30:
@@ -291,12 +334,13 @@ def main(argv=None):
                 if not S.ok_segment(lib, sname) or not lib.SEGMENTS[sname][1]:
                     good = False
                     break
-                lines.append(c01.canonical_line(rng, lib, ec, sname))
+                # structures with duplicated child names: plain lines that STRICT accepts
+                lines.append('%s|1' % sname if m in dupes else c01.canonical_line(rng, lib, ec, sname))
             if not good:
                 continue
             # sometimes disturb the order / add a Z segment (F18 territory)
             disturbed = False
-            if (rng.random() < .3 or m == mnames[0]) and len(lines) > 2:     # first structure of a version: always (F18)
+            if (rng.random() < .3 or m == mnames[0]) and len(lines) > 2 and m not in dupes:     # first structure of a version: always (F18)
                 disturbed = True
                 if rng.random() < .5:
                     lines.insert(rng.randint(1, len(lines)), 'ZZZ|1')
@@ -317,6 +361,14 @@ def main(argv=None):
                     run.fail('strict-accepts-tolerant-rejects', 'message accepted under STRICT is rejected under TOLERANT',
                              version=v, text=text, tolerant_code=repr(ex))
                     continue
+                rs0 = report(ms)
+                if rs0[0] == 'ok':
+                    bad = only_missing_required(rs0[1])
+                    if bad:
+                        run.fail('strict-accepted-draws-validator-error', 'a message accepted by STRICT parsing draws a '
+                                 'validator error other than a missing required child', version=v, text=text,
+                                 errors=bad[:4], open_ended_beyond_table=False, cls='Message', structure=m,
+                                 find_groups=fg, z_name_outside_field_regex=False, disturbed=disturbed)
                 es, et = ms.to_er7(), mt.to_er7()
                 if es != et:
                     in_names = [l[:3] for l in text.split('\r')]
